@@ -52,7 +52,7 @@ theorem refArgsSib_ne (ft : FnType) (acc : Access) (rel : Rel) (a : Args)
 theorem sib_eq_ref_sibling_plainKinds (k : Kind) (ft : FnType) (acc : Access) (bk : BodyKind) (a : Args)
     (keyOf : Args → Args) (hf : Nat → Nat) (rs : Bool) (rel : Rel)
     (h : supported k ft acc = true) (hk : k ≠ .dedup) :
-    modelCvRun (Env.quiet keyOf hf rs) ⟨k, ft, acc, bk⟩ .sibling a rel = refCvRun ⟨k, ft, acc, bk⟩ .sibling a rel := by
+    modelCvRunF (Env.quiet keyOf hf rs) ⟨k, ft, acc, bk⟩ .sibling a rel = refCvRun ⟨k, ft, acc, bk⟩ .sibling a rel := by
   cases k <;> first
     | (exact absurd rfl hk)
     | (cases ft <;> cases acc <;> cases bk <;> cases rel <;> first | rfl | (simp [supported] at h))
@@ -60,7 +60,7 @@ theorem sib_eq_ref_sibling_plainKinds (k : Kind) (ft : FnType) (acc : Access) (b
 theorem sib_eq_ref_siblingCall_plainKinds (k : Kind) (ft : FnType) (acc : Access) (bk : BodyKind) (a : Args)
     (keyOf : Args → Args) (hf : Nat → Nat) (rs : Bool) (rel : Rel)
     (h : supported k ft acc = true) (hk : k ≠ .dedup) :
-    modelCvRun (Env.quiet keyOf hf rs) ⟨k, ft, acc, bk⟩ .siblingCall a rel = refCvRun ⟨k, ft, acc, bk⟩ .siblingCall a rel := by
+    modelCvRunF (Env.quiet keyOf hf rs) ⟨k, ft, acc, bk⟩ .siblingCall a rel = refCvRun ⟨k, ft, acc, bk⟩ .siblingCall a rel := by
   cases k <;> first
     | (exact absurd rfl hk)
     | (cases ft <;> cases acc <;> cases bk <;> cases rel <;> first | rfl | (simp [supported] at h))
@@ -68,7 +68,7 @@ theorem sib_eq_ref_siblingCall_plainKinds (k : Kind) (ft : FnType) (acc : Access
 theorem sib_eq_ref_prior_plainKinds (k : Kind) (ft : FnType) (acc : Access) (bk : BodyKind) (a : Args)
     (keyOf : Args → Args) (hf : Nat → Nat) (rs : Bool) (rel : Rel)
     (h : supported k ft acc = true) (hk : k ≠ .alru ∧ k ≠ .acpi) :
-    modelCvRun (Env.quiet keyOf hf rs) ⟨k, ft, acc, bk⟩ .prior a rel = refCvRun ⟨k, ft, acc, bk⟩ .prior a rel := by
+    modelCvRunF (Env.quiet keyOf hf rs) ⟨k, ft, acc, bk⟩ .prior a rel = refCvRun ⟨k, ft, acc, bk⟩ .prior a rel := by
   cases k <;> first
     | (exact absurd rfl hk.1)
     | (exact absurd rfl hk.2)
@@ -85,7 +85,7 @@ theorem dictFind_single_ne (hf : Nat → Nat) (k' k : Nat × Args) (r : Reach) (
 
 theorem dedup_sibling_unfold (ft : FnType) (acc : Access) (bk : BodyKind) (a : Args)
     (keyOf : Args → Args) (hf : Nat → Nat) (rs : Bool) (rel : Rel) (h : supported .dedup ft acc = true) :
-    modelCvRun (Env.quiet keyOf hf rs) ⟨.dedup, ft, acc, bk⟩ .sibling a rel =
+    modelCvRunF (Env.quiet keyOf hf rs) ⟨.dedup, ft, acc, bk⟩ .sibling a rel =
       ⟨[.val ⟨1, refArgsSib ft acc rel a, false⟩],
        (match dictFind hf [((1, keyOf (refArgsSib ft acc rel a)), ⟨1, refArgsSib ft acc rel a, false⟩)]
                 (1, keyOf (refArgs ft acc 0 a)) with
@@ -95,7 +95,7 @@ theorem dedup_sibling_unfold (ft : FnType) (acc : Access) (bk : BodyKind) (a : A
 
 theorem dedup_siblingCall_unfold (ft : FnType) (acc : Access) (bk : BodyKind) (a : Args)
     (keyOf : Args → Args) (hf : Nat → Nat) (rs : Bool) (rel : Rel) (h : supported .dedup ft acc = true) :
-    modelCvRun (Env.quiet keyOf hf rs) ⟨.dedup, ft, acc, bk⟩ .siblingCall a rel =
+    modelCvRunF (Env.quiet keyOf hf rs) ⟨.dedup, ft, acc, bk⟩ .siblingCall a rel =
       ⟨[.val ⟨1, refArgsSib ft acc rel a, false⟩],
        (match dictFind hf [((1, keyOf (refArgsSib ft acc rel a)), ⟨1, refArgsSib ft acc rel a, false⟩)]
                 (1, keyOf (refArgs ft acc 0 a)) with
@@ -108,7 +108,7 @@ theorem dedup_siblingCall_unfold (ft : FnType) (acc : Access) (bk : BodyKind) (a
 theorem cached_prior_unfold (k : Kind) (ft : FnType) (acc : Access) (bk : BodyKind) (a : Args)
     (keyOf : Args → Args) (hf : Nat → Nat) (rs : Bool) (rel : Rel) (h : supported k ft acc = true)
     (hk : k = .alru ∨ k = .acpi) :
-    modelCvRun (Env.quiet keyOf hf rs) ⟨k, ft, acc, bk⟩ .prior a rel =
+    modelCvRunF (Env.quiet keyOf hf rs) ⟨k, ft, acc, bk⟩ .prior a rel =
       ⟨[.val ⟨1, refArgsSib ft acc rel a, false⟩],
        (Res.drive
          (match dictFind hf (if rs then [] else [((1, keyOf (refArgsSib ft acc rel a)), ⟨1, refArgsSib ft acc rel a, false⟩)])
@@ -170,7 +170,7 @@ theorem modelCvRun_sib_eq_ref (k : Kind) (ft : FnType) (acc : Access) (bk : Body
     (keyOf : Args → Args) (hf : Nat → Nat) (rs : Bool) (rel : Rel)
     (h : supported k ft acc = true) (hcv : cv.isSib = true)
     (hkey : keyOf (refArgsSib ft acc rel a) ≠ keyOf (refArgs ft acc 0 a)) :
-    modelCvRun (Env.quiet keyOf hf rs) ⟨k, ft, acc, bk⟩ cv a rel = refCvRun ⟨k, ft, acc, bk⟩ cv a rel := by
+    modelCvRunF (Env.quiet keyOf hf rs) ⟨k, ft, acc, bk⟩ cv a rel = refCvRun ⟨k, ft, acc, bk⟩ cv a rel := by
   have hk1 : ((1 : Nat), keyOf (refArgsSib ft acc rel a)) ≠ (1, keyOf (refArgs ft acc 0 a)) := by
     intro heq; exact hkey (Prod.mk.inj heq).2
   cases cv <;> first | (simp [Cv.isSib] at hcv; done) | skip
@@ -202,19 +202,19 @@ theorem modelCv_eq_ref_all (k : Kind) (ft : FnType) (acc : Access) (bk : BodyKin
     (keyOf : Args → Args) (hf : Nat → Nat) (rs : Bool) (rel : Rel)
     (h : supported k ft acc = true)
     (hkey : identicalSib ft acc rel a = false → keyOf (refArgsSib ft acc rel a) ≠ keyOf (refArgs ft acc 0 a)) :
-    modelCv (Env.quiet keyOf hf rs) ⟨k, ft, acc, bk⟩ cv a rel = refCv ⟨k, ft, acc, bk⟩ cv a rel := by
+    modelCvF (Env.quiet keyOf hf rs) ⟨k, ft, acc, bk⟩ cv a rel = refCv ⟨k, ft, acc, bk⟩ cv a rel := by
   cases hcv : cv.isSib
   · exact modelCv_eq_ref_quiet k ft acc bk cv a keyOf hf rs rel h hcv
-  · unfold modelCv refCv
+  · unfold modelCvF modelCvWith refCv
     cases hi : identicalSib ft acc rel a
     · simp only [hcv, Bool.and_false, Bool.false_eq_true, if_false]
       exact modelCvRun_sib_eq_ref k ft acc bk cv a keyOf hf rs rel h hcv (hkey hi)
     · simp [hcv]
 
 theorem modelReport_eq_ref (c : Case) (h : supported c.cell.kind c.cell.ft c.cell.acc = true) :
-    modelReport c = refReport c := by
+    modelReportF c = refReport c := by
   obtain ⟨⟨k, ft, acc, bk⟩, raises, sig, args, falsy, pre, rel, vk⟩ := c
-  simp only [modelReport, refReport, report, Report.mk.injEq]
+  simp only [modelReportF, refReport, report, Report.mk.injEq]
   refine ⟨?_, modelCls_eq_ref k ft acc bk h, modelRecv_eq_ref k ft acc bk h⟩
   apply List.map_congr_left
   intro cv _
@@ -293,7 +293,7 @@ theorem bk_irrelevant (k : Kind) (ft : FnType) (acc : Access) (bk bk' : BodyKind
     (keyOf : Args → Args) (hf : Nat → Nat) (rs : Bool) (rel : Rel)
     (h : supported k ft acc = true) (hk : k ≠ .raw)
     (hkey : identicalSib ft acc rel a = false → keyOf (refArgsSib ft acc rel a) ≠ keyOf (refArgs ft acc 0 a)) :
-    modelCv (Env.quiet keyOf hf rs) ⟨k, ft, acc, bk⟩ cv a rel = modelCv (Env.quiet keyOf hf rs) ⟨k, ft, acc, bk'⟩ cv a rel := by
+    modelCvF (Env.quiet keyOf hf rs) ⟨k, ft, acc, bk⟩ cv a rel = modelCvF (Env.quiet keyOf hf rs) ⟨k, ft, acc, bk'⟩ cv a rel := by
   rw [modelCv_eq_ref_all k ft acc bk cv a keyOf hf rs rel h hkey, modelCv_eq_ref_all k ft acc bk' cv a keyOf hf rs rel h hkey]
   have hr : ∀ b, Cell.rawGen ⟨k, ft, acc, b⟩ = false := by
     intro b; cases k <;> first | rfl | exact absurd rfl hk
